@@ -157,6 +157,7 @@ func (sr *SelectRelation) Materialize(aggRunner *AggRunner, catDir *catalog.Dire
 				if err2 != nil {
 					return nil, fmt.Errorf("non date predicate found for Epoch")
 				}
+				val = convertUnitToNanosec(val)
 				if !sp.ContentsEnum.IsSet(INCLUSIVEMIN) {
 					val += 1 // exclusive bound: the scan starts at the next instant
 				}
@@ -167,6 +168,7 @@ func (sr *SelectRelation) Materialize(aggRunner *AggRunner, catDir *catalog.Dire
 				if err2 != nil {
 					return nil, fmt.Errorf("non date predicate found for Epoch")
 				}
+				val = convertUnitToNanosec(val)
 				if !sp.ContentsEnum.IsSet(INCLUSIVEMAX) {
 					val -= 1 // exclusive bound: the scan ends at the previous instant
 				}
